@@ -295,9 +295,14 @@ func writeGroupIni(cmd *Command, group *Group, namespace string, writer io.Write
 				kind = val.Type().Elem().Kind()
 			}
 
-			v, _ := convertToString(val, option.tag)
+			if val.Kind() == reflect.Ptr && val.IsNil() {
+				// like an empty slice, a nil pointer has no value to read back
+				writeOption(writer, oname, kind, "", "", true, option.iniQuote)
+			} else {
+				v, _ := convertToString(val, option.tag)
 
-			writeOption(writer, oname, kind, "", v, commentOption, option.iniQuote)
+				writeOption(writer, oname, kind, "", v, commentOption, option.iniQuote)
+			}
 		}
 
 		if comments {
